@@ -129,6 +129,9 @@ func hashTwins() (sp, ext []twin) {
 				}
 			}
 		}
+		// a known 64-bit collision (FNV-1a-64 of the extended-ID strings; found by a 2^32 birthday search, which is
+		// too long to repeat on every run): both hash to 6351238038953105631
+		twinsEx = append(twinsEx, twin{ID{25, 21236982, 17278617, 25, 1953}, ID{25, 24546739, 4349485, 25, 6401}})
 		if len(twinsSp) == 0 || len(twinsEx) == 0 {
 			panic(fmt.Sprint("hash twin search found nothing: ", len(twinsSp), len(twinsEx)))
 		}
